@@ -341,6 +341,7 @@ func checkC14(c *Ctx, r *Report) {
 	pairingRule(c, r)
 
 	// R14d
+	userErrorRule(c, r)
 	r.Rule("R14d", "every value built by normalize* carries the options' metadata (shared with C18 R18b)", 12)
 	metaReachesValues(c, r, "R14d")
 }
@@ -655,4 +656,102 @@ func pairingRule(c *Ctx, r *Report) {
 			}
 		}
 	}
+}
+
+// userErrorRule (R14e): an error that comes out of user code (Unpacker.Unpack, Validator.Validate,
+// resolver functions, anything called through an interface the repository does not implement, or
+// through reflect.Value.Call) knows nothing about the setting it was raised for. A function whose
+// result is a ucfg.Error must not hand such an error on by asserting it to Error: it has to go
+// through a constructor that attaches the setting's path and metadata — also when the user's error
+// happens to be a ucfg.Error already (a nested Config.Unpack reports paths relative to its own root).
+func userErrorRule(c *Ctx, r *Report) {
+	r.Rule("R14e", "no ucfg.Error result is a type assertion of an error produced by user code: such errors are wrapped by a constructor with the setting's path and metadata", 3)
+	errT := c.Named("", "Error")
+	n := 0
+	for _, fn := range c.SrcFuncs() {
+		if fn.Pkg != c.SSA[""] {
+			continue
+		}
+		Instrs(fn, false, func(in ssa.Instruction) {
+			ta, ok := in.(*ssa.TypeAssert)
+			if !ok || !types.Identical(ta.AssertedType, errT) {
+				return
+			}
+			n++
+			// provenance of the asserted operand
+			var user []string
+			seen := map[ssa.Value]bool{}
+			var walk func(v ssa.Value, d int)
+			walk = func(v ssa.Value, d int) {
+				if v == nil || seen[v] || d > 12 {
+					return
+				}
+				seen[v] = true
+				switch x := v.(type) {
+				case *ssa.Phi:
+					for _, e := range x.Edges {
+						walk(e, d+1)
+					}
+				case *ssa.Extract:
+					walk(x.Tuple, d+1)
+				case *ssa.TypeAssert:
+					walk(x.X, d+1)
+				case *ssa.ChangeInterface:
+					walk(x.X, d+1)
+				case *ssa.MakeInterface:
+					walk(x.X, d+1)
+				case *ssa.UnOp:
+					if x.Op == token.MUL {
+						if vals, ok := localStores(x.X); ok {
+							for _, s := range vals {
+								walk(s, d+1)
+							}
+						}
+					}
+				case *ssa.Call:
+					cc := x.Call
+					switch {
+					case cc.IsInvoke():
+						callees := c.Callees(x)
+						inRepo := 0
+						for _, g := range callees {
+							if c.InRepo(g) {
+								inRepo++
+							}
+						}
+						if inRepo == 0 || inRepo < len(callees) {
+							user = append(user, "invoke "+cc.Method.Name()+" on "+typeStr(cc.Value.Type()))
+						}
+					case cc.StaticCallee() == nil:
+						user = append(user, "dynamic call")
+					case cc.StaticCallee().String() == "(reflect.Value).Call":
+						user = append(user, "reflect.Value.Call")
+					}
+				}
+			}
+			walk(ta.X, 0)
+			// is the asserted value returned as the function's Error result?
+			returned := false
+			for _, ret := range Returns(fn) {
+				for i := range ret.Results {
+					for _, s := range append(Sources(RetVal(ret, i)), RetVal(ret, i)) {
+						if s == ssa.Value(ta) {
+							returned = true
+						}
+						if ex, ok := s.(*ssa.Extract); ok && ex.Tuple == ssa.Value(ta) && ex.Index == 0 {
+							returned = true
+						}
+					}
+				}
+			}
+			bad := returned && len(user) > 0
+			why := "asserted operand comes from repository code only"
+			if !returned {
+				why = "the asserted value is inspected, not returned"
+			}
+			r.Check(!bad, "R14e", c.FnName(fn), "assertion to Error", c.Pos(ta.Pos()), why,
+				"an error produced by user code ("+strings.Join(user, ", ")+") is returned as the ucfg.Error result without being wrapped: it carries no path, or a path relative to another root, and not the source of the offending setting")
+		})
+	}
+	_ = n
 }
